@@ -1409,6 +1409,11 @@ func i64p(v int64) *int64 { return &v }
 func jobctlCase(c *Ctx, rng *rand.Rand) {
 	w := newJobctlWorld(c, rng)
 	w.ctx = sim.NewContext()
+	defer func() {
+		for range w.ctx.Sim().Drifted() {
+			c.Count("observed.cache-object-written-through") // code under test modified an object it got from a lister
+		}
+	}()
 	w.clk = fakeclock.NewFakeClock(sim.VirtualBase.Add(time.Duration(rng.Intn(100000)) * time.Second))
 	ktime.Clock = w.clk
 	w.api = sim.NewSimAPI(w.clk)
